@@ -60,6 +60,334 @@ fn oracle(c: &Case, ctx: &mut Ctx) -> CaseResult {
 	Ok(())
 }
 
+// ------------------------------------------------------------------------------------------------
+// (g) limit exactness: at a link-quiescent instant the reported [minimum, limit] is exactly the set of
+// amounts the sender accepts and the peer accepts.
+// ------------------------------------------------------------------------------------------------
+
+#[derive(Clone, Debug, Serialize, Deserialize)]
+enum Probe {
+	BelowMin,
+	AtMin,
+	Inside(u16),
+	AtLimit,
+	AboveLimit(u8),
+}
+
+#[derive(Clone, Debug, Serialize, Deserialize)]
+struct LimitCase {
+	spec: WorldSpec,
+	ops: Vec<Op>,
+	sender_is_funder: bool,
+	probe: Probe,
+}
+
+fn limit_weights() -> OpWeights {
+	OpWeights { send: 40, claim: 6, fail: 4, deliver: 25, flush: 6, events: 10, forwards: 10, disconnect: 0, reconnect: 0, setfee: 5, timer: 0, async_toggle: 0, complete: 0, pump: 10 }
+}
+
+fn limit_strat() -> impl Strategy<Value = LimitCase> {
+	(
+		world_spec(vec![Topology::Pair]),
+		proptest::collection::vec(op_strategy(limit_weights()), 0..30),
+		any::<bool>(),
+		prop_oneof![
+			2 => Just(Probe::BelowMin),
+			2 => Just(Probe::AtMin),
+			2 => any::<u16>().prop_map(Probe::Inside),
+			3 => Just(Probe::AtLimit),
+			3 => prop_oneof![Just(1u8), 1u8..=255].prop_map(Probe::AboveLimit),
+		],
+	)
+		.prop_map(|(spec, ops, sender_is_funder, probe)| LimitCase { spec, ops, sender_is_funder, probe })
+}
+
+fn chan_fingerprint(sim: &netsim::sim::Sim, node: usize) -> String {
+	let d = sim.chan_details(node, 0);
+	match d {
+		None => "none".into(),
+		Some(d) => format!(
+			"out={} in={} lim={} min={} pend_in={} pend_out={} usable={}",
+			d.outbound_capacity_msat,
+			d.inbound_capacity_msat,
+			d.next_outbound_htlc_limit_msat,
+			d.next_outbound_htlc_minimum_msat,
+			d.pending_inbound_htlcs.len(),
+			d.pending_outbound_htlcs.len(),
+			d.is_usable
+		),
+	}
+}
+
+fn limit_oracle(c: &LimitCase, ctx: &mut Ctx) -> CaseResult {
+	use netsim::sim::*;
+	let mut sim = c.spec.build(false);
+	let mut o = CommitOracle::new(&sim);
+	for op in c.ops.iter() {
+		apply(&mut sim, &c.spec, op);
+		o.step(&sim)?;
+	}
+	// reach a link-quiescent instant: nothing queued, no update in flight; pending committed HTLCs may remain
+	apply(&mut sim, &c.spec, &Op::Pump);
+	o.step(&sim)?;
+	if sim.total_queued() != 0 {
+		ctx.discard();
+		return Ok(());
+	}
+	let sender = if c.sender_is_funder { 0 } else { 1 };
+	let receiver = 1 - sender;
+	let Some(det) = sim.chan_details(sender, 0) else {
+		ctx.discard();
+		return Ok(());
+	};
+	if !det.is_usable {
+		ctx.discard();
+		return Ok(());
+	}
+	let min = det.next_outbound_htlc_minimum_msat;
+	let lim = det.next_outbound_htlc_limit_msat;
+	let pending = det.pending_inbound_htlcs.len() + det.pending_outbound_htlcs.len();
+	let (amt, expect_ok) = match &c.probe {
+		Probe::BelowMin => {
+			if min <= 1 {
+				(0, false)
+			} else {
+				(min - 1, false)
+			}
+		},
+		Probe::AtMin => (min, min <= lim),
+		Probe::Inside(f) => {
+			if min > lim {
+				(min, false)
+			} else {
+				(min + ((lim - min) as u128 * (*f as u128) / 65536) as u64, true)
+			}
+		},
+		Probe::AtLimit => (lim, min <= lim && lim > 0),
+		Probe::AboveLimit(d) => (lim + *d as u64, false),
+	};
+	if amt == 0 {
+		// a zero-value HTLC is not a meaningful "one below the minimum" probe
+		ctx.label("probe-skipped-zero");
+		return Ok(());
+	}
+	if !expect_ok && amt >= min && amt <= lim {
+		ctx.label("probe-skipped-degenerate");
+		return Ok(());
+	}
+	let before_s = chan_fingerprint(&sim, sender);
+	let before_r = chan_fingerprint(&sim, receiver);
+	let log_mark = sim.log.len();
+	let idx = sim.send(sender, &[0], amt);
+	o.step(&sim)?;
+	let emitted_add = sim.log[log_mark..].iter().any(|(_, e)| matches!(e, SEvent::Emit { wire: Wire::Add(_), .. }));
+	let key_ctx = format!(
+		"{:?} amt={} min={} lim={} sender={} ({}) pending_htlcs={} type={:?} feerate={} value={:?}",
+		c.probe, amt, min, lim, sender, if c.sender_is_funder { "funder" } else { "fundee" }, pending, c.spec.ctype, c.spec.feerate, c.spec.value_sat
+	);
+	ctx.label(match &c.probe {
+		Probe::BelowMin => "probe:min-1",
+		Probe::AtMin => "probe:min",
+		Probe::Inside(_) => "probe:inside",
+		Probe::AtLimit => "probe:limit",
+		Probe::AboveLimit(_) => "probe:limit+d",
+	});
+	ctx.label_if(pending > 0, "probe-with-pending-htlcs");
+	if expect_ok {
+		if sim.pays[idx].state == PayState::Refused || !emitted_add {
+			return Err(Failure::new("limit-exactness", format!("an HTLC inside the reported limits was refused by the sender: {}", key_ctx))
+				.with_key(format!("limit-exactness/inside-refused/{:?}/{}", c.spec.ctype, if c.sender_is_funder { "funder" } else { "fundee" })));
+		}
+		// the peer must accept it and the dance must complete
+		apply(&mut sim, &c.spec, &Op::Pump);
+		if let Err(mut f) = o.step(&sim) {
+			f.detail = format!("after sending an HTLC inside the reported limits ({}): {}", key_ctx, f.detail);
+			f.key = format!("limit-exactness/inside-rejected-by-peer/{}", f.oracle);
+			return Err(f);
+		}
+		// the recipient saw it (claimable) -- i.e. it was irrevocably committed on both sides
+		if !sim.pays[idx].claimable_seen {
+			// legitimately possible only if the recipient failed it back for a reason unrelated to limits
+			let failed = sim.pays[idx].failed_event;
+			return Err(Failure::new("limit-exactness", format!("an HTLC inside the reported limits did not become claimable at the peer (failed_back={}): {}", failed, key_ctx))
+				.with_key(format!("limit-exactness/inside-not-committed/{:?}", c.spec.ctype)));
+		}
+		ctx.nontrivial_if(matches!(c.probe, Probe::AtLimit | Probe::AtMin) || pending > 0);
+	} else {
+		if emitted_add {
+			// the sender accepted an amount outside its own reported limits
+			return Err(Failure::new("limit-exactness", format!("an HTLC outside the reported limits was sent: {}", key_ctx))
+				.with_key(format!("limit-exactness/outside-accepted/{:?}/{}", c.spec.ctype, if c.sender_is_funder { "funder" } else { "fundee" })));
+		}
+		// refused locally without harming the channel
+		sim.process_events(sender);
+		o.step(&sim)?;
+		let after_s = chan_fingerprint(&sim, sender);
+		let after_r = chan_fingerprint(&sim, receiver);
+		vensure!(before_s == after_s && before_r == after_r, "limit-exactness", "a refused send changed the channel state: {} -> {} / {} -> {} ({})", before_s, after_s, before_r, after_r, key_ctx);
+		// the next send inside the limits still works
+		if min <= lim && lim > 0 {
+			let idx2 = sim.send(sender, &[0], min.max(1));
+			apply(&mut sim, &c.spec, &Op::Pump);
+			o.step(&sim)?;
+			vensure!(sim.pays[idx2].claimable_seen, "limit-exactness", "after a refused send, an HTLC at the reported minimum no longer goes through ({})", key_ctx);
+		}
+		ctx.nontrivial();
+	}
+	Ok(())
+}
+
+// ------------------------------------------------------------------------------------------------
+// (f) cooperative close pays each party its final balance less only the negotiated fee
+// ------------------------------------------------------------------------------------------------
+
+#[derive(Clone, Debug, Serialize, Deserialize)]
+struct CloseCase {
+	spec: WorldSpec,
+	ops: Vec<Op>,
+	closer_is_funder: bool,
+	/// per claimable payment: claim (true) or fail back
+	resolutions: Vec<bool>,
+	/// request the close before the pending payments are resolved (shutdown then waits for them)
+	close_early: bool,
+}
+
+fn close_strat() -> impl Strategy<Value = CloseCase> {
+	(world_spec(vec![Topology::Pair]), proptest::collection::vec(op_strategy(limit_weights()), 0..30), any::<bool>(), proptest::collection::vec(any::<bool>(), 8), any::<bool>())
+		.prop_map(|(spec, ops, closer_is_funder, resolutions, close_early)| CloseCase { spec, ops, closer_is_funder, resolutions, close_early })
+}
+
+fn close_oracle(c: &CloseCase, ctx: &mut Ctx) -> CaseResult {
+	use lightning::events::Event;
+	use netsim::sim::*;
+	let mut sim = c.spec.build(false);
+	let mut o = CommitOracle::new(&sim);
+	for op in c.ops.iter() {
+		apply(&mut sim, &c.spec, op);
+		o.step(&sim)?;
+	}
+	apply(&mut sim, &c.spec, &Op::Pump);
+	o.step(&sim)?;
+	let closer = if c.closer_is_funder { 0 } else { 1 };
+	let chan_id = sim.chans[0].id;
+	let request_close = |sim: &mut Sim, o: &mut CommitOracle| -> bool {
+		let peer = sim.w.node_id(1 - closer);
+		o.coop_close_requested[0] = true;
+		let r = sim.w.nodes[closer].node.close_channel(&chan_id, &peer);
+		sim.drain(closer);
+		r.is_ok()
+	};
+	let mut requested = false;
+	if c.close_early {
+		requested = request_close(&mut sim, &mut o);
+		apply(&mut sim, &c.spec, &Op::Pump);
+		o.step(&sim)?;
+	}
+	// resolve whatever is claimable
+	for round in 0..4 {
+		let cands: Vec<usize> = sim.pays.iter().filter(|p| p.state == PayState::Claimable).map(|p| p.idx).collect();
+		if cands.is_empty() && round > 0 {
+			break;
+		}
+		for (i, p) in cands.iter().enumerate() {
+			if c.resolutions[i % c.resolutions.len()] {
+				sim.claim(*p);
+			} else {
+				sim.fail_back(*p);
+			}
+		}
+		apply(&mut sim, &c.spec, &Op::Pump);
+		o.step(&sim)?;
+	}
+	if !requested {
+		requested = request_close(&mut sim, &mut o);
+	}
+	if !requested {
+		ctx.discard();
+		return Ok(());
+	}
+	for _ in 0..6 {
+		apply(&mut sim, &c.spec, &Op::Pump);
+		for i in 0..2 {
+			sim.timer_tick(i);
+		}
+		o.step(&sim)?;
+	}
+	// both sides must have closed cooperatively and broadcast the same closing transaction
+	let closed: Vec<usize> = sim
+		.log
+		.iter()
+		.filter_map(|(_, e)| match e {
+			SEvent::Ldk { node, ev: Event::ChannelClosed { .. } } => Some(*node),
+			_ => None,
+		})
+		.collect();
+	if !(closed.contains(&0) && closed.contains(&1)) {
+		// pending HTLCs that were never claimable (e.g. still in a holding cell) can legitimately stall the close
+		ctx.label("close-not-completed");
+		return Ok(());
+	}
+	let funding = sim.chans[0].funding_tx.compute_txid();
+	let mut closing: Vec<bitcoin::Transaction> = vec![];
+	for n in 0..2 {
+		for tx in sim.broadcasts[n].iter() {
+			if tx.input.len() == 1 && tx.input[0].previous_output.txid == funding && !closing.iter().any(|t| t.compute_txid() == tx.compute_txid()) {
+				closing.push(tx.clone());
+			}
+		}
+	}
+	vensure!(closing.len() == 1, "coop-close", "expected exactly one distinct closing transaction, saw {}", closing.len());
+	let tx = &closing[0];
+	let exp0 = o.models[0].fully_applied(0).map_err(|e| Failure::new("bolt2-model", e))?;
+	vensure!(exp0.nondust.is_empty() && exp0.dust.is_empty(), "coop-close", "channel closed cooperatively with {} HTLCs pending in the model", exp0.nondust.len() + exp0.dust.len());
+	// balances: [side0 (funder), side1]
+	let bal = [exp0.balance_msat[0], exp0.balance_msat[1]];
+	let value = sim.chans[0].value_sat;
+	let out_sum: u64 = tx.output.iter().map(|o| o.value.to_sat()).sum();
+	let fee = value - out_sum;
+	// identify outputs by the shutdown scripts exchanged
+	let mut scripts: [Option<bitcoin::ScriptBuf>; 2] = [None, None];
+	let mut fees_offered: Vec<(u64, Option<(u64, u64)>)> = vec![];
+	for (_, e) in sim.log.iter() {
+		if let SEvent::Emit { from, wire, .. } = e {
+			match wire {
+				Wire::Shutdown(m) => scripts[*from] = Some(m.scriptpubkey.clone()),
+				Wire::ClosingSigned(m) => fees_offered.push((m.fee_satoshis, m.fee_range.as_ref().map(|r| (r.min_fee_satoshis, r.max_fee_satoshis)))),
+				_ => {},
+			}
+		}
+	}
+	let out_of = |side: usize| -> u64 { scripts[side].as_ref().map(|s| tx.output.iter().filter(|o| o.script_pubkey == *s).map(|o| o.value.to_sat()).sum()).unwrap_or(0) };
+	let got = [out_of(0), out_of(1)];
+	vensure!(got[0] + got[1] == out_sum, "coop-close", "closing transaction pays {} sat to scripts that are neither party's shutdown script", out_sum - got[0] - got[1]);
+	// the non-funder is paid exactly its balance (or nothing if that is below its dust limit); the funder pays the fee
+	let nf = bal[1] / 1000;
+	let dust = [sim.chans[0].open.common_fields.dust_limit_satoshis, sim.chans[0].accept.common_fields.dust_limit_satoshis];
+	let detail = format!("balances msat {:?}, outputs {:?}, fee {}, dust limits {:?}, offered fees {:?}", bal, got, fee, dust, fees_offered);
+	if got[1] != nf {
+		vensure!(got[1] == 0 && nf < dust[1].max(dust[0]).max(546), "coop-close", "non-funder is paid {} but its final balance is {} sat ({})", got[1], nf, detail);
+	}
+	let f_bal = bal[0] / 1000;
+	vensure!(got[0] <= f_bal, "coop-close", "funder is paid more than its balance ({})", detail);
+	// sub-satoshi remainders of the two msat balances cannot be paid out and go to the miner on top of the
+	// negotiated fee, as does a peer output too small to be created
+	let remainder = value - f_bal - nf;
+	let negotiated = fee.saturating_sub(remainder + (nf - got[1]));
+	if got[0] > 0 {
+		vensure!(got[0] + negotiated == f_bal && fee >= remainder + (nf - got[1]), "coop-close", "funder output + negotiated fee {} does not equal its balance ({})", negotiated, detail);
+	}
+	// the final fee is one both sides proposed/accepted and lies inside every exchanged fee range
+	for (_, r) in fees_offered.iter() {
+		if let Some((lo, hi)) = r {
+			vensure!(negotiated >= *lo && negotiated <= *hi || got[0] == 0, "coop-close", "negotiated fee {} outside an exchanged fee range [{}, {}] ({})", negotiated, lo, hi, detail);
+		}
+	}
+	ctx.label(if c.close_early { "close-requested-with-htlcs-pending" } else { "close-after-resolution" });
+	ctx.label_if(got[0] == 0 || got[1] == 0, "one-output-omitted");
+	ctx.nontrivial_if(o.stats.signed >= 2);
+	Ok(())
+}
+
 fn main() {
 	install_recording_signer();
 	let mut c = Check::new("C01", "exploration");
@@ -70,12 +398,34 @@ fn main() {
 		PartSpec {
 			name: "pair-commitments",
 			rule: "random world (channel type, value, push, reserve, dust exposure, htlc minimum, in-flight %, max accepted, feerate) + 5..N generated operations over one channel; every sign_counterparty_commitment is compared with the model. Non-trivial: a commitment was signed with >=1 pending HTLC and the schedule had both sides unacked at once, a disconnect with messages in flight, or a fee update concurrent with an add",
-			quick_cases: 3000,
+			quick_cases: 2000,
 			thorough_cases: 120_000,
 			max_shrink: 600,
 		},
 		|| strat(45),
 		oracle,
+	);
+	c.part_with(
+		PartSpec {
+			name: "limit-exactness",
+			rule: "random world + 0..30 operations, pumped to a link-quiescent instant (pending committed HTLCs allowed); then one probe send at min-1 / min / inside / limit / limit+d from either side. Inside: the sender emits the HTLC, the peer accepts it and it becomes claimable; outside: nothing is emitted, list_channels is unchanged on both sides and a minimum-sized HTLC still goes through. Non-trivial: probe at an edge or with HTLCs pending",
+			quick_cases: 1200,
+			thorough_cases: 100_000,
+			max_shrink: 400,
+		},
+		limit_strat,
+		limit_oracle,
+	);
+	c.part_with(
+		PartSpec {
+			name: "coop-close",
+			rule: "random world + 0..30 operations, payments resolved by generated claim/fail choices, cooperative close requested by either side (optionally while HTLCs are pending); the single closing transaction pays the non-funder its model balance, the funder its balance minus the fee, the fee lies in every exchanged fee range. Non-trivial: >=2 commitment updates happened before the close",
+			quick_cases: 600,
+			thorough_cases: 40_000,
+			max_shrink: 300,
+		},
+		close_strat,
+		close_oracle,
 	);
 	c.finish();
 }
